@@ -365,6 +365,12 @@ class Model:
                     lit = p[1].replace('{', '').replace('}', '')
                     txt += lit
                     out += lit
+                elif p[0] == 'fd':
+                    d = self.dicts.get(p[1])
+                    if d is None or not d[0]:
+                        raise Unsupported('no such string dict')
+                    txt += '{%s[%d]}' % (p[1], p[2])
+                    out += d[2].get(p[2], d[1])
                 elif p[0] == 'b':
                     # a doubled brace is str.format's escape for a literal brace
                     txt += p[1] * 2
@@ -586,7 +592,13 @@ class Model:
             if '=' in kt or ']' in kt:
                 raise Unsupported("'=' or ']' in a dictionary key expression makes name[key]=value ambiguous")
             if isstr:
-                vt, vo = value, value
+                if isinstance(value, list):
+                    # a reading term as the value (same exclusions as for a plain string variable)
+                    vt, vo = self.S(value)
+                    if '{' in vo or '}' in vo or '#CHR' in vt or '#SPACE' in vt or _makes_spaces(value) or not balanced(vt):
+                        raise Unsupported('dictionary string value outside the mode-independent domain')
+                else:
+                    vt, vo = value, value
             else:
                 vt, vo = self.E(value)
             d[2][kv] = vo
@@ -849,6 +861,9 @@ class Gen:
                     parts.append(['f', n, spec])
                 elif r.random() < 0.25:
                     parts.append(['b', r.choice('{}}')])
+                elif r.random() < 0.4 and any(d[0] for d in self.m.dicts.values()):
+                    n = r.choice(sorted(n for n, d in self.m.dicts.items() if d[0]))
+                    parts.append(['fd', n, r.choice(list(self.m.dicts[n][2]) + [r.randrange(0, 12)])])
                 else:
                     parts.append(['t', self.text(1, 4, 'abc XYZ09.:-')])
             return ['format', r.choice((0, 0, 1, 2)), parts, self.delim()]
@@ -914,7 +929,17 @@ class Gen:
         if k < 0.29 and m.dicts:
             name = r.choice(sorted(m.dicts))
             isstr = m.dicts[name][0]
-            return ['letk', name, isstr, self.E(1) if r.random() < 0.5 else ['lit', r.randrange(0, 12), 'd'], self.text(1, 3, 'abcxyz') if isstr else self.E(depth - 2)]
+            if isstr:
+                c = r.random()
+                if c < 0.4:
+                    val = self.text(1, 3, 'abcxyz')
+                elif c < 0.75:
+                    val = ' ' * r.randrange(0, 3) + self.text(1, 3, 'abcxyz') + ' ' * r.randrange(0, 3)      # edge whitespace is part of the value
+                else:
+                    val = self.S(depth - 2)
+            else:
+                val = self.E(depth - 2)
+            return ['letk', name, isstr, self.E(1) if r.random() < 0.5 else ['lit', r.randrange(0, 12), 'd'], val]
         if k < 0.33:
             # plant a string for #STR: text + terminator (zero byte, bit 7 on the last character, or a marker byte)
             txt = self.text(1, 7, 'abcdefgh  XYZ 0123.:;!?_-+*=^`')
